@@ -97,14 +97,14 @@ def generate(seed, run, tier):
     rs = stream_rng(seed, ID, run, "swarm")
     rq = stream_rng(seed, ID, run, "sched")
     nm = rs.choice([0, 1, 2, 2, 3, 3, 4, 6])
-    names_pool = ["".join(rw.choice(NAME_CH) for _ in range(rw.randint(1, 15)))
+    names_pool = ["".join(rw.choice(NAME_CH) for _ in range(rw.choice([1, 2, 5, 9, 14, 15, 16])))
                   for _ in range(max(1, nm))]
     members = []
     for i in range(nm):
         name = rw.choice(names_pool) if rw.random() < 0.3 else names_pool[i]
         if name.strip(".") == "" and rw.random() < 0.5:
             name = "m%d" % i
-        style = "bsd" if rs.random() < 0.25 else "gnu"
+        style = "bsd" if (rs.random() < 0.25 or len(name) == 16) else "gnu"
         members.append({"name": name, "style": style,
                         "data": enc_bytes(_gen_data(rw, rw.choice([0, 1, 2, 2, 3, 3]))),
                         "mtime": rw.choice([0, 1342943816, 999999999999]),
@@ -130,8 +130,12 @@ def generate(seed, run, tier):
         st = {"a": cur[0], "m": cur[1], "via": cur[2], "op": k}
         if k == "read_n":
             st["n"] = rq.choice([1, 1, 2, 3, 5, 8, 64, 1000])
+            if rq.random() < 0.3:
+                st["rel"] = rq.choice([-1, 0, 1])      # n = bytes remaining + rel
         elif k == "readline_n":
             st["n"] = rq.choice([0, 1, 2, 5, 70, -1])
+            if rq.random() < 0.3:
+                st["rel"] = rq.choice([-1, 0, 1])      # n = rest of the line + rel
         elif k == "seek":
             st["t"] = rq.choice([0, 0, 1, 2, 3, 5, 8, 13, 21, 40, 63, 64, 65, 70])
             st["w"] = rq.choice([0, 0, 1, 2])
@@ -247,6 +251,8 @@ def execute(case):
             mpos = model.tell()
             if op == "read_n":
                 n = st["n"]
+                if "rel" in st and size - mpos + st["rel"] >= 1:
+                    n = size - mpos + st["rel"]
                 want, got = model.read(n), _call(h.read, n)
                 if n == 1 and prev is not None and prev[0] == "read_n1" and prev[1] != key:
                     out.probe("alternating_single_byte_reads")
@@ -267,6 +273,9 @@ def execute(case):
             elif op == "readline_n":
                 n = st["n"]
                 rest = datas[mi][mpos:]
+                if "rel" in st and rest:
+                    eol = rest.find(b"\n")
+                    n = max(0, (len(rest) if eol < 0 else eol + 1) + st["rel"])
                 if n > len(rest) and b"\n" not in rest and rest:
                     out.probe("readline_n_crossing_member_end")
                 want, got = model.readline(n), _call(h.readline, n)
@@ -293,7 +302,7 @@ def execute(case):
             prev = ("read_n1" if op == "read_n" and st["n"] == 1 else op, key)
             out.steps += 1
             tell = _call(h.tell)
-            log.add(si, ai, mi, op, st.get("n"), st.get("t"), st.get("w"), got, tell)
+            log.add(si, ai, mi, op, st.get("n"), st.get("rel"), st.get("t"), st.get("w"), got, tell)
             detail = {"step": si, "archive": ai, "member": mi, "name": names[mi],
                       "member_size": size, "op": op, "args": {k: st[k] for k in
                                                               ("n", "t", "w") if k in st},
